@@ -122,6 +122,23 @@ def gen_pairs(ctx):
     # label magnitudes at which the integer code of a (prediction, reference) pair crosses 2^8 / 2^16 / 2^32
     for _ in range(ctx.scale(24, 200)):
         pairs.append(impl.code_boundary_pair(rng))
+    # many instances: a grid of 130-400 small references, each overlapped by one or two predictions (hundreds of candidate pairs;
+    # every pair must be scored and offered to the matcher, whatever their number)
+    for _ in range(ctx.scale(2, 10)):
+        rows, cols = rng.randint(10, 16), rng.randint(13, 25)
+        ref = np.zeros((2 * rows, 4 * cols), np.uint16)
+        pred = np.zeros((2 * rows, 4 * cols), np.uint16)
+        labs = list(range(1, rows * cols + 1))
+        plabs = labs[:]
+        rng.shuffle(plabs)
+        k = 0
+        for i in range(rows):
+            for j in range(cols):
+                ref[2 * i, 4 * j:4 * j + 3] = labs[k]
+                sh = rng.choice([0, 0, 1, 2])
+                pred[2 * i, 4 * j + sh:min(4 * cols, 4 * j + sh + 3)] = plabs[k]        # shifted: may reach into the next reference
+                k += 1
+        pairs.append((pred, ref))
     return pairs
 
 
